@@ -35,6 +35,12 @@ NOTES = {
  "C03b": "round 2; first missed by C03 (reported by C05 R3); C03 R7 now reports the C05 R3 layering rule as a structural-validity clause",
  "C06b": "round 2; NOT caught and not claimed: the change moves the boundary of the Algorithm 2.B termination test (`<=` to `<`) — a value-level detail of a cryptographic routine, the kind of clause §6 declares out of reach (C23); a rule on the operator would also fire on equivalent rewritings (`last + 32 <= round`), so none was added",
  "C07b": "round 2; first missed; rule C07 R6 (LZW code width increments are capped at 12) added",
+ "C02b": "round 2; first missed; rule C02 R5 (every typed page resource is written unless the skip is decided on its content bytes) added",
+ "C10b": "round 2; first missed; rule C09/C10 S3 (octal escapes are {:03o}) added",
+ "C13b": "round 2; first missed; rule C13 R4 (no value filter between the width table and the /W builder) added",
+ "C15b": "round 2; first missed; rule C15 R4 (enumerate() directly over the page list) added",
+ "C16b": "round 2; first missed; rule C16 R6 (the complete key list reaches collision_font_mapping) added",
+ "C17b": "round 2; first missed; rule C17 R5 (every edit of a batch is written: the latest wins) added",
  "C11b": "round 2; first missed; rule C11 R7 (fonts are installed under their resource name unconditionally) added",
 }
 for d in sorted(glob.glob(S + '/C*')):
